@@ -97,8 +97,17 @@ func zzMkRec(root *idr.Node, tag string, floats bool) (*idr.Node, string) {
 	v := idr.CreateNode(idr.ElementNode, "v")
 	idr.AddChild(t, v)
 	idr.AddChild(v, idr.CreateNode(idr.TextNode, string(b)))
+	// a second, uncast field so that good records differ in their output
+	wb := zz.NondetBytesN(tag+".w", 1)
+	zz.Assume(zz.ByteIn(wb[0], "pq"))
+	w := idr.CreateNode(idr.ElementNode, "w")
+	idr.AddChild(t, w)
+	idr.AddChild(w, idr.CreateNode(idr.TextNode, string(wb)))
+	zzLastW = string(wb)
 	return t, string(b)
 }
+
+var zzLastW string
 
 // C10IngesterStep: the ingester over K symbolic records: every result depends on its own
 // record only (equal to an independent evaluation of a copy of that record), a failing
@@ -116,17 +125,19 @@ func C10IngesterStep() {
 	decl := transform.ZZValidate(map[string]*transform.Decl{"FINAL_OUTPUT": {Object: map[string]*transform.Decl{
 		"n": {XPath: zzS("v"), ResultType: transform.ZZRT(cast)},
 		"s": {XPath: zzS("v"), KeepEmptyOrNull: true},
+		"w": {XPath: zzS("w")},
 		// a declaration anchored on an ancestor of the record: the ancestor keeps its identity from
 		// record to record while what hangs under it changes
 		"up": {XPath: zzS(".."), Object: map[string]*transform.Decl{"cur": {XPath: zzS("T/v"), KeepEmptyOrNull: true}}},
 	}}})
 	root := idr.CreateNode(idr.DocumentNode, "")
 	fr := &zzFR{root: root, last: -1, ioErrAt: -1, lazyAttach: true}
-	var texts []string
+	var texts, wtexts []string
 	for i := 0; i < K; i++ {
 		n, s := zzMkRec(nil, "rec", floats)
 		fr.recs = append(fr.recs, n)
 		texts = append(texts, s)
+		wtexts = append(wtexts, zzLastW)
 	}
 	fr.released = make([]int, K)
 	if zz.NondetBool("readerFails") {
@@ -169,6 +180,9 @@ func C10IngesterStep() {
 		cv := idr.CreateNode(idr.ElementNode, "v")
 		idr.AddChild(c, cv)
 		idr.AddChild(cv, idr.CreateNode(idr.TextNode, texts[i]))
+		cw := idr.CreateNode(idr.ElementNode, "w")
+		idr.AddChild(c, cw)
+		idr.AddChild(cw, idr.CreateNode(idr.TextNode, wtexts[i]))
 		want, werr := transform.NewParseCtx(&transformctx.Ctx{}, transform.ZZFuncs, nil).ParseNode(c, decl)
 		var wantBytes []byte
 		if werr == nil {
